@@ -48,6 +48,19 @@ structure Pred where
       component `i` of the vector-valued leaves it binds (`for i, k := range keys { check k xs[i] }`),
       never on an aggregate of the components (`Model/CheckGraphVec.lean`) -/
   perRow : Bool := false
+  /-- the predicate compares an aggregate with the claim of EVERY sender
+      (`for s in senders { if claim s ≠ aggregate { abort } }`), never with the claim of one sender
+      only (`Model/CheckGraphClaims.lean`) -/
+  everySender : Bool := false
+  deriving DecidableEq, Repr, Inhabited
+
+/-- a COHERENT deviation (harness/c04_coh.go): the deviator runs the honest code on a substituted
+input, deals a consistent sharing of another value, or changes a claim about the past together with
+everything derived from it. Its messages are mutually consistent; `caughtBy` names the predicates
+that tie them to the other parties' view and must reject. -/
+structure Coherent where
+  kind : String
+  caughtBy : List String
   deriving DecidableEq, Repr, Inhabited
 
 structure Graph where
@@ -58,6 +71,8 @@ structure Graph where
   /-- the vector-valued leaves: one component per MSP row owned by the sender (shares, sub-shares,
       partial signatures under a non-ideal access structure) -/
   vectors : List Leaf := []
+  /-- the coherent deviations the tamper matrix runs against this protocol -/
+  coherent : List Coherent := []
   deriving Repr, Inhabited
 
 /-! ## classification of a tampered site -/
